@@ -547,8 +547,18 @@ func runHistory(run *lib.Run, c jcase) {
 				}
 				kinds[k] = cnt
 			}
+			hasMerge := false
+			for _, seg := range append(append([]string{}, popSegs...), strings.Join(pops, ";")) {
+				if strings.Contains(seg, "PMerge") {
+					hasMerge = true
+				}
+			}
 			var gens []string
 			for _, k := range order {
+				if k == "branch-versions" && hasMerge {
+					run.Add("generic-merge", fmt.Sprintf("(CGenMerge [(%d%%nat, %d%%nat)])", kinds[k][0], kinds[k][1]), c, fmt.Sprintf("genm/%s/%d", c.Name, restarts))
+					continue
+				}
 				if k == "branch-head" || k == "lm-splits" || k == "lm-nextlabel" || k == "repos-info" || k == "repo-info" || k == "lm-extents-index" {
 					continue // compared through the models below
 				}
